@@ -7,6 +7,7 @@ from collections.abc import (
 )
 from pathlib import Path
 from types import TracebackType
+import codecs as _codecs
 import io
 import itertools as _itertools
 import os as _os
@@ -501,6 +502,10 @@ class AtomicWriter(Generic[IOKindT]):
             # Already open - close and delete the current file.
             self.temp.close()
             Path(self.temp.name).unlink()
+
+        if not self.is_bytes:
+            # An unknown encoding must fail before the exclusive open creates the temporary file.
+            _codecs.lookup(self.encoding)
 
         # Create folders if needed.
         self.filename.parent.mkdir(parents=True, exist_ok=True)
